@@ -101,6 +101,11 @@ func cmdDump(args []string) int {
 		return 2
 	}
 	reps := v.translateAll(func(c *Contract) bool { return c.Pkg+"."+c.Name == *fname })
+	if *fname == "lemmas" {
+		tr := &fnTrans{key: "spec"}
+		tr.obls = v.lemmaObligations("")
+		reps = []*funcReport{{Key: "spec", tr: tr}}
+	}
 	if len(reps) == 0 {
 		fmt.Fprintln(os.Stderr, "no contract for", *fname)
 		return 2
@@ -120,7 +125,7 @@ func cmdDump(args []string) int {
 			if *match != "" && !strings.Contains(o.Name, *match) {
 				continue
 			}
-			q := r.tr.queryText(o, true)
+			q := o.tr.queryText(o, true)
 			fn := filepath.Join(*out, fmt.Sprintf("%03d_%s.smt2", i, sanitize(o.Name)))
 			os.WriteFile(fn, []byte(q), 0o644)
 			if *solve {
